@@ -208,6 +208,11 @@ func runTraps(p *core.Prog, r *core.Report, reach map[*ssa.Function]bool, parser
 				u := core.ClassifyErr(info, body, c)
 				if u.Kind == "if-return" || u.Kind == "returned" {
 					r.Ok("REQ-ERR", key, p.Pos(c.Pos()), "a failed Request returns an error before the buffer is used")
+				} else if u.Kind == "if-other" && u.If != nil && leaves(u.If.Body) {
+					// the function has no error to return (a predicate): the failure branch leaves it, so the
+					// code behind the Request runs only when the bytes are there; what the branch itself
+					// does with the buffer is subject to the IDX obligations like any other code
+					r.Ok("REQ-ERR", key, p.Pos(c.Pos()), "a failed Request leaves the function before the code behind it runs")
 				} else {
 					r.Bad("REQ-ERR", key, p.Pos(c.Pos()), "the result of Request is not tested ("+u.Kind+"): on a short input the buffer is shorter than assumed and the code behind it indexes past its end")
 				}
@@ -762,4 +767,22 @@ func RepairNoPanic(p *core.Prog, r *core.Report) {
 		r.Und("REACH", m, "-", "anchor-unresolved")
 	}
 	runTraps(p, r, reach, false)
+}
+
+// leaves: the block ends in a return or a panic.
+func leaves(b *ast.BlockStmt) bool {
+	if b == nil || len(b.List) == 0 {
+		return false
+	}
+	switch x := b.List[len(b.List)-1].(type) {
+	case *ast.ReturnStmt:
+		return true
+	case *ast.ExprStmt:
+		if c, ok := x.X.(*ast.CallExpr); ok {
+			if id, ok := c.Fun.(*ast.Ident); ok && id.Name == "panic" {
+				return true
+			}
+		}
+	}
+	return false
 }
